@@ -815,6 +815,11 @@ impl World {
 	/// A panic inside library code while executing an action: attributed to a property by the
 	/// fixed table of DESIGN §7.1.
 	pub fn library_panic(&mut self, what: &str, msg: String, loc: String) {
+		if self.dead {
+			// the run already ended with a library panic; what follows inside the same composite
+			// action (poisoned locks) is its consequence, not a second finding
+			return;
+		}
 		let profile = self.cfg.profile.clone();
 		let (prop, oracle) = if loc.contains("test_channel_signer.rs") {
 			("C05", "C05-policy signer assertion")
